@@ -46,6 +46,8 @@ def configs(tier):
     for name in ("high", "medium", "low"):
         out.append(dict(key=f"exact,n_samples=2,precision={name}", mode="exact", n=2, prec=name, extra=2, cost=300))
     out.append(dict(key="soft+fast-raises", mode="soft+fast", n=1, prec=None, cost=1))
+    for smp in ("statistical", "shuffle"):
+        out.append(dict(key=f"real-{smp}-sampler-reused-with-another-ground-truth", mode="reuse", sampler=smp, n=1, prec=None, cost=400, split=16))
     out.append(dict(key="default-sampler-and-dissimilarity", mode="defaults", n=1, prec=None, cost=5))
     for s in ([(1, 1), (2, 2)] if tier == "quick" else [(1, 1), (2, 2), (1, 1, 1), (2, 2, 2)]):
         out.append(dict(key=f"identical-annotations,sizes={s}", mode="identical", sizes=list(s), n=1, prec=None, cost=300))
@@ -121,6 +123,8 @@ def harness(cfg, ns, schedule_factory=None):
     def h(ctx):
         if mode == "identical":
             return identical(ctx)
+        if mode == "reuse":
+            return reuse(ctx)
         rec = dict(alignments=[], measure=[], inits=[], drawn_in_job=[])
         rng = stubs.RNG(ctx, max_draws=10)
         rec["rng"] = rng
@@ -242,6 +246,59 @@ def harness(cfg, ns, schedule_factory=None):
         obls.append(Obl("no-rng-call-inside-a-job", rng.calls_in_job == 0, rz))
         return obls
 
+    def reuse(ctx):
+        """the same real sampler object handed to two gamma computations of the same continuum, the second with a
+        ground-truth subset: the chance continua of the second must come from that subset"""
+        rec = dict(alignments=[], measure=[], inits=[], drawn_in_job=[])
+        rng = stubs.RNG(ctx, max_draws=40)
+        rng.assume_nonzero_weight = (cfg["sampler"] == "statistical")
+        rec["rng"] = rng
+        ns.np.random = rng
+        ns.np.std_calls = []
+        # concrete reference (the staleness at stake is structural; two symbolic samplings multiply the paths), symbolic draws
+        c, info = common.build_continuum(ns, ctx, (1, 1, 1), coords="fixed", labels=["x", "y", "x"])
+        c.tag = "input"
+        rng.max_draws = 16
+
+        def rz(m):
+            return dict(kind="reuse", sampler=cfg["sampler"], units=[[common.ANN[a], common.frs(mval(m, v["start"])), common.frs(mval(m, v["end"])), v["label"]]
+                                                                      for (a, j), v in sorted(info.items())])
+        ctx.notes["realize"] = rz
+        ctx.notes["inputs"] = [v[k] for v in info.values() for k in ("start", "end")]
+        if cfg["sampler"] == "statistical":
+            smp = ns.sa.StatisticalContinuumSampler()
+            orig = rng.normal
+            durs = [0]
+
+            def normal(mu=0.0, sd=1.0, size=None):
+                v = orig(mu, sd)
+                if not isinstance(mu, SymNum) and mu == getattr(smp, "_avg_nb_units_per_annotator", None):
+                    ctx.solver.add(v.e > -2, v.e < 2)
+                    ctx.get_model()
+                elif mu is getattr(smp, "_avg_unit_duration", None):
+                    durs[0] += 1
+                    if durs[0] > 8:
+                        raise core.Cut("duration-redraws")
+                return v
+            rng.normal = normal
+        else:
+            smp = ns.sa.ShuffleContinuumSampler(pivot_type="float_pivot")
+        undo = install_spies(ns, ctx, rec, rng=rng)
+        try:
+            class D:
+                delta_empty = 1
+            d = D()
+            smp.init_sampling(c)            # an earlier use of the sampler on the same continuum object, all annotators
+            gt = [common.ANN[0], common.ANN[2]]
+            r2 = c.compute_gamma(d, n_samples=1, sampler=smp, ground_truth_annotators=gt)
+        finally:
+            undo()
+        s2 = r2.chance_alignments[0].of
+        if cfg["sampler"] == "statistical":
+            return [Obl("re-used sampler: samples come from the new ground truth", list(s2.annotators) == gt, rz)]
+        return [Obl("re-used sampler: as many sampled annotators as ground-truth annotators", len(s2.annotators) == 2, rz),
+                Obl("re-used sampler: uses the new ground truth", list(smp._ground_truth_annotators) == gt, rz)]
+
     def identical(ctx):
         sizes = tuple(cfg["sizes"])
         st = common.set_backend("cbc")
@@ -288,6 +345,21 @@ def replay(case):
     from pyannote.core import Segment
     from unittest import mock
     F = lambda x: float(Fraction(x))     # noqa: E731
+    if case["kind"] == "reuse":
+        from pygamma_agreement.sampler import StatisticalContinuumSampler, ShuffleContinuumSampler
+        c = common.real_continuum(dict(units=case["units"], annotators=common.ANN[:3]))
+        smp = StatisticalContinuumSampler() if case["sampler"] == "statistical" else ShuffleContinuumSampler()
+        d = pa.CombinedCategoricalDissimilarity()
+        np.random.seed(5)
+        smp.init_sampling(c)
+        gt = [common.ANN[0], common.ANN[2]]
+        r2 = c.compute_gamma(d, n_samples=2, sampler=smp, ground_truth_annotators=gt)
+        bad = []
+        for A in r2.chance_alignments:
+            anns = list(A.continuum.annotators)
+            if (case["sampler"] == "statistical" and anns != gt) or len(anns) != 2:
+                bad.append(f"chance continuum annotators {anns} for ground truth {gt}")
+        return dict(reproduced=bool(bad), detail="; ".join(bad[:2]))
     if case["kind"] == "identical":
         c = pa.Continuum()
         for a in range(len(case["sizes"])):
